@@ -8,35 +8,54 @@ ID = 'C04'
 LEAN_MODULES = ['PybtexModel.Props.C04']
 THEOREMS = {
     'C04_char_classes': 'the character classes of model and rule are the interpreter\'s str.isalpha/isupper/islower tables (regenerated); kernel-checked facts the rule relies on: upper and lower case are disjoint, below U+0080 the classes are the ASCII ones, white space / braces / backslash / comma / tie / hyphen / digits are in no class, a first character that is a letter or cased is an ordinary brace-level-0 character, and the first-character clause of the rule matters only for a cased first character that is not a letter',
-    'C04_matches_spec': 'the model of Person._parse_string equals the BibTeX rule (Spec.split) for EVERY non-empty string whose case-deciding tokens scan within the nesting limit or start with an upper-case character',
-    'C04_matches_spec_of_scan': 'the same under the plain hypothesis that every case-deciding token scans within the nesting limit',
-    'C04_matches_rule_any': 'for every string, a successful parse is the rule\'s split with "is_von_name answers yes" as the lower-case test (no hypothesis)',
-    'C04_matches_spec_neg': 'witness a{101 nested braces} B: the scan hypothesis cannot be dropped for tokens starting with a lower-case letter (is_von_name answers from the first character, the rule gives an over-nested token no case)',
-    'C04_case_of_token': "each token's case is decided by its first brace-level-0 letter or special character (a cased first character decides at once; a letter without case makes the token caseless): is_von_name = Spec.isLow on every non-empty token with a decidable case",
-    'C04_total': 'parsing succeeds for every non-empty string, reporting too many commas exactly when there are more than three comma parts; the only exception is "too many nested braces" from a case-deciding token that does not scan; never IndexError / ValueError',
-    'C04_total_person': 'Person(string, first, middle, prelast, last, lineage) for ANY six strings returns a person or raises "too many nested braces" caused by a token of the stripped string',
+    'C04_matches_spec': 'the model of Person._parse_string equals the BibTeX rule (Spec.split) for EVERY non-empty string (no hypothesis)',
+    'C04_matches_rule_any': 'a successful parse is the rule\'s split with "is_von_name answers yes" as the lower-case test (the tie to is_von_name itself)',
+    'C04_case_of_token': "each token's case is decided by its first brace-level-0 letter or special character (a cased first character decides at once; a letter without case makes the token caseless): is_von_name = Spec.isLow on EVERY non-empty token",
+    'C04_overnested_case': 'a token nesting braces deeper than the scanner follows them (> 100 levels) has the case of its first character (upper / lower / none) in the rule, and is_von_name answers accordingly instead of raising (repair C04-1)',
+    'C04_builtin_special_chars': 'a special character whose control sequence is one of BibTeX\'s built-in foreign characters has the case of the table (\\i \\j \\oe \\ae \\aa \\o \\l \\ss lower; \\OE \\AE \\AA \\O \\L upper) whatever follows, in the rule and in special_char_islower (repair C04-2)',
+    'C04_total': 'parsing succeeds for EVERY non-empty string (no IndexError / ValueError / too many nested braces), reporting too many commas exactly when there are more than three comma parts',
+    'C04_total_person': 'Person(string, first, middle, prelast, last, lineage) succeeds for ANY six strings; too many commas is reported exactly when the stripped string has more than three comma parts',
     'C04_tokens_nonempty': 'tokens of the tokeniser are never empty and a non-empty string has at least one comma part (why string[0] and the ValueError branch are unreachable)',
     'C04_tokens_preserved': 'no token is lost, duplicated or reordered: first++middle++prelast++last = tokens(s) without commas; prelast++last / lineage / first++middle = tokens of the first / second / last comma part (extra parts joined by blanks); first_names is the first token of First',
-    'C04_von_longest': 'the von part is the longest run ending in a lower-case token that still leaves a last name: boundary = Spec.vonLast, no lower-case token left in last[:-1], von ends lower-case, last non-empty, a lower-case token before the final one forces von',
-    'C04_case_rule': 'First von Last form: no token of First is lower-case, von (when present) starts with the first lower-case token, a lower-case token before the final token forces a von part',
+    'C04_von_longest': 'the von part is the longest run ending in a lower-case token that still leaves a last name: boundary = Spec.vonLast, no lower-case token left in last[:-1], von ends lower-case, last non-empty, a lower-case token before the final one forces von (every string)',
+    'C04_case_rule': 'First von Last form: no token of First is lower-case, von (when present) starts with the first lower-case token, a lower-case token before the final token forces a von part (every string)',
+    'C04_person_matches_spec': 'the constructor as a whole, for ANY six arguments: Person(string, first, middle, prelast, last, lineage) = the rule\'s split of the stripped string (nothing for a blank string) with the tokens of each explicit part appended, too many commas as the rule says (what the oracle clauses matches_bibtex / parts_same_tokenisation evaluate)',
     'C04_parts_same_tokenisation': 'explicit part arguments are tokenised by the same tokeniser and appended to the parts parsed from the string',
-    'C04_braces_atomic': 'every returned token is a non-empty token of the tokeniser applied to the name, one of its first two comma parts or the blank-joined rest (brace atomicity reduces to C12\'s tokeniser theorems)',
+    'C04_braces_atomic': 'every returned token is a non-empty token of the tokeniser applied to the name, one of its first two comma parts or the blank-joined rest (so that C12\'s tokeniser theorems apply to every name part)',
+    'C04_groups_never_split': 'braced groups are never split: for a name with balanced braces every returned token is brace-balanced (no group is cut by a token boundary or by a comma) in all comma forms incl. too many commas; likewise the tokens of a balanced explicit part (from C12_split_braces; stripping and blank-joining keep the balance)',
 }
 RULE = ('all token shapes up to the tier token count over the ASCII token classes {Capitalised, lowercase, braced, special-char upper, '
-        'special-char lower, caseless, hyphenated, tie-joined} and the non-ASCII classes {cased letters (\u00c9douard, \u0432\u0430\u043d), letters '
+        'special-char lower, caseless, hyphenated, tie-joined, built-in foreign character lower ({\\ae}b) / upper ({\\O}x)} and the non-ASCII '
+        'classes {cased letters (\u00c9douard, \u0432\u0430\u043d), letters '
         'without case (CJK; okina + small letters; titlecase \u01c5), cased non-letters first (\u24b6b, \u24d0B) and inside (1\u24d0X), combining '
         'mark first, special characters with non-ASCII letters} x 0..3 commas at every position x separators {space, ~, two spaces, \\ }; '
-        'every string up to the tier length over {a B { } \\ , ~ space - 1 \u6bdb \u24d0 \u00e9} (totality); seeded noisy long names with Latin-1, '
-        'Cyrillic, Greek, CJK, Hebrew, Hangul, circled and astral letters; tokens starting with code points at and next to the '
-        'boundaries of the interpreter\'s isalpha/isupper/islower ranges and with random code points; the table of '
-        'tests/parse_name_test.py as corpus; non-trivial = more than one token or a comma; distinct by case JSON')
+        'white space: 1..3 tokens x comma placements x an INDEPENDENT separator per gap from {tab, LF, CR LF, NBSP, U+001F, U+2028, LF + '
+        'indentation, blank, ~, control space, ...}, every one of the 29 Python white-space code points (and look-alikes that are not white '
+        'space) between, around and inside the tokens; every string up to the tier length over {a B { } \\ , ~ space - 1 \u6bdb \u24d0 \u00e9} '
+        'and over {a B { } \\ , ~ space LF tab NBSP U+001F} (totality); groups nested 99..102 deep at every token position, with and without '
+        'a cased / caseless first character, also inside a special character; the thirteen built-in control sequences and near misses in '
+        'every special-character shape; seeded noisy long names with Latin-1, '
+        'Cyrillic, Greek, CJK, Hebrew, Hangul, circled and astral letters and mixed white space; tokens starting with code points at and next to the '
+        'boundaries of the interpreter\'s isalpha/isupper/islower ranges and with random code points; explicit part arguments with the '
+        'same token material; the table of '
+        'tests/parse_name_test.py as corpus (also re-written with line breaks as in wrapped .bib files); non-trivial = more than one token or a comma; distinct by case JSON')
 TRUSTED = ['character classes: str.isalpha / str.isupper / str.islower of the running interpreter on single code points, regenerated as '
            'range tables (harness/tablegen/unicode.py -> Gen/Unicode.lean) on every run',
-           'tokenisation is the C12 model of split_tex_string']
-ASSUMPTIONS = []
+           'tokenisation in the theorems is the C12 model of split_tex_string (splitTex); the oracle compares the tokens with the '
+           'independent one-pass tokeniser Spec.nameTokens / Spec.nameCommaParts (stated from the property text) on every case whose brace '
+           'groups are all closed; splitTex = Spec.nameTokens is checked on those cases, not proved']
+ASSUMPTIONS = ['/repo carries the proposed repairs C04-1 (is_von_name: an over-nested token has no case instead of raising "too many nested '
+               'braces") and C04-2 (special_char_islower knows BibTeX\'s thirteen built-in foreign characters); on a tree without them the '
+               'check reports the two defects as violations with failing inputs',
+               'a token that nests braces deeper than pybtex\'s scanner limit (100 levels) and does not start with a cased character is '
+               'caseless in the rule (Spec.tokenCase); BibTeX itself has no nesting limit (its limits are buffer sizes) and would scan on',
+               'on a string with an unclosed brace group the code treats the text after the last brace as brace level 0; the property text '
+               'does not say what the tokens of such a string are, so there the token reference is the model of split_tex_string',
+               'BibTeX knows ASCII letters only: beyond ASCII the rule is BibTeX\'s rule read with Python\'s character classes (also for the '
+               'letters that make up a control sequence)']
 
 TOKENS = {'Cap': 'Smith', 'low': 'von', 'braced': '{Mc B}', 'spU': "{\\'E}cole", 'spL': "{\\'e}cole", 'caseless': '1{2}',
-          'hyph': 'Jean-Paul', 'lowbr': '{\\v s}x', 'sp0': '{\\ae}b'}
+          'hyph': 'Jean-Paul', 'lowbr': '{\\v s}x', 'sp0': '{\\ae}b', 'biU': '{\\O}stergaard'}
 # token classes with non-ASCII characters.  "letter" (isalpha) and "cased" (isupper/islower) are independent in Unicode.
 UTOKENS = {'uCap': '\u00c9douard',            # cased letters outside ASCII
            'uLow': '\u0432\u0430\u043d',            # Cyrillic "van"
@@ -50,20 +69,40 @@ UTOKENS = {'uCap': '\u00c9douard',            # cased letters outside ASCII
            'spUU': "{\\'\u00c9}x",              # special characters with non-ASCII letters
            'spUL': '{\\relax \u0436}X'}
 CLASSES = list(TOKENS)
+CLASSES_LONG = [c for c in CLASSES if c != 'biU']       # the longest shapes of the thorough tier
 UCLASSES = list(UTOKENS)
 ALLTOKENS = dict(TOKENS, **UTOKENS)
 # reduced class set for the longest shapes of the thorough tier
 CLASSES4 = ['Cap', 'low', 'caseless', 'spL', 'uCap', 'uLow', 'cjk', 'okinaLow', 'circL', 'title']
 SEPS = [' ', '~', '  ', '\\ ']
 ALPHA = ['a', 'B', '{', '}', '\\', ',', '~', ' ', '-', '1', '\u6bdb', '\u24d0', '\u00e9']
+# second alphabet for the exhaustive strings: white space other than the blank
+ALPHA_WS = ['a', 'B', '{', '}', '\\', ',', '~', ' ', '\n', '\t', '\u00a0', '\x1f']
+# the 29 code points of str.isspace() / re's \s (Model/Basic.lean wsCodes; C04_char_classes: none of them is a letter or cased)
+PY_WS = [chr(c) for c in range(0x110000) if chr(c).isspace()]
+# look-alikes that are NOT white space for Python (zero-width space, BOM, Mongolian vowel separator, NUL, word joiner, soft hyphen)
+NOT_WS = ['\u200b', '\ufeff', '\u180e', '\x00', '\u2060', '\xad', '\x08', '\x7f']
+# separators of the white-space families: what real .bib files contain (wrapped author lists, tabs, CR LF, NBSP) plus the rarer ones
+WS_MAIN = ['\t', '\n', '\r\n', '\u00a0', '\x1f', '\u2028', '\n    ']
+WS_MORE = WS_MAIN + [' ', '~', '\\ ', '\x0b', '\x0c', '\x1c', '\x85', '\u3000', '\u2003', '\r', ' \n', '~\n', '\\ \t', '\t~', '\n\\ \n']
+WS_CLASSES = ['Cap', 'low', 'braced', 'spL', 'caseless', 'sp0']
 UNICODE_NAMES = ['\u6bdb \u6cfd\u4e1c', '\u05d3\u05d5\u05d3 \u05d1\u05df \u05d2\u05d5\u05e8\u05d9\u05d5\u05df', '\u00c9douard van Beneden',
                  '\u02bbAkahi Kealoha, Leilani', '\u5c71\u7530 van \u592a\u90ce Smith', '\uae40 Van Halen, Jr, Eddie', '(\u6bdb \u6cfd\u4e1c',
                  '\u24b6b \u24d0b 1\u24d0X Z', '\u0416\u0430\u043d \u0432\u0430\u043d \u03c9mega \u01c5x \u03a9mega', 'e\u0301cole \u0301x Last',
                  '\U0001d400 \U0001d41a \U00020000 \U00010400 \U00010428 Z', '\u00aa \u00df \u0131 \u0345x \u2160 \u2170 Z']
+# names as they stand in real .bib files (line breaks inside the author list), built-in foreign characters, over-nested tokens
+KNOWN_NAMES = ['Ludwig\nvan Beethoven', 'Ludwig\n               van\tBeethoven', 'von\r\nBeethoven,\n Jr,\u00a0Ludwig\u2028X.',
+               'A~\n\\ b\x1f\t~C', 'Jens {\\o}stergaard Hansen', 'Jens {\\O}stergaard Hansen', '{\\ss}x {\\O e} {\\oe} Z', '{\\l}ukasz {\\L}ukasz',
+               'a' + '{' * 101 + '}' * 101 + ' B', '{' * 101 + 'a' + '}' * 101 + ' B', 'A ' + '{' * 101 + '}' * 101 + 'a B',
+               'B' + '{' * 101 + '}' * 101 + ' c D', '{\\x' + '{' * 100 + 'a' + '}' * 100 + '} B', '{a{b} c d']
 UPOOL = ['\u00c9douard', '\u00e9lan', '\u0416\u0430\u043d', '\u0432\u0430\u043d', '\u03a9mega', '\u03c9mega', '\u6bdb', '\u6cfd\u4e1c', '\u05d1\u05df',
          '\u05d3\u05d5\u05d3', '\uae40', '\uae40x', '\u02bbAkahi', '\u02bbokina', '\u24b6b', '\u24d0B', '\u24d0', '\u01c5x', '\u0301x', 'e\u0301',
          "{\\'\u00c9}", "{\\'\u00e9}", '{\\relax \u0436}', '{\\relax \u6bdb}x', '{\\\u00e9 \u00c9}', '(\u6bdb', '1\u24d0X', '\u00df', '\u0131', '\u00aa',
          '\u0345x', '\u2160', '\u2170x', '\U0001d400', '\U0001d41ab', '\U00020000', '\U00010428x', '{\u6bdb}\u00e9', '\u00e9{', '\u6bdb}']
+# the control sequences BibTeX has built in, and near misses
+BUILTIN_CS = ['i', 'j', 'oe', 'ae', 'aa', 'o', 'l', 'ss', 'OE', 'AE', 'AA', 'O', 'L']
+NEAR_CS = ['', 'I', 'J', 'Oe', 'oE', 'aE', 'Aa', 'SS', 'ii', 'oo', 'ssx', 'os', 'lambda', 'oslash', 'relax', 'LL', 'a', 'e', 's', 'A', "'", '"', '\u00f8', 'o\u00e9']
+PARTS = ('first', 'middle', 'prelast', 'last', 'lineage')
 
 
 def impl(case):
@@ -102,16 +141,39 @@ def _balanced(s):
     return d == 0
 
 
+def _call(case):
+    if case['op'] == 'person':
+        return 'Person(%r)' % case['s']
+    return 'Person(%r, %s)' % (case['s'], ', '.join('%s=%r' % (k, case[k]) for k in PARTS))
+
+
+def _oracle_parts(case, io, spec):
+    """op personparts -- "explicit part arguments are token-split the same way": every name list is the list parsed from the
+    string followed by the tokens of the explicit argument (tokens by the rule when the argument's groups are all closed)."""
+    fails = []
+    p = io['person']
+    base = spec['person']
+    for k in PARTS:
+        ref = spec[k]['rule'] if spec[k]['closed'] else spec[k]['model']
+        if p[k] != base[k] + ref:
+            fails.append('parts_same_tokenisation: %s .%s_names = %r, the string gives %r and the tokens of %s=%r are %r' % (
+                _call(case), k, p[k], base[k], k, case[k], ref))
+    if io['too_many_commas'] != spec['too_many_commas']:
+        fails.append('total: %s reported too many commas = %r' % (_call(case), io['too_many_commas']))
+    if p['bibtex_first'] != p['first'] + p['middle']:
+        fails.append('tokens_preserved: bibtex_first_names of %s' % _call(case))
+    return fails
+
+
 def oracle(case, io, reply):
-    if case['op'] != 'person':
-        return []
     fails = []
     s = case['s']
     spec = reply.get('spec', {})
     if 'error' in io:
-        if io['error'] == 'BibTeXError' and '{' * 90 in s:
-            return []
-        return ['total: Person(%r) raised %s' % (s, io['error'])]
+        # "parsing succeeds (possibly reporting too many commas) for every string"
+        return ['total: %s raised %s' % (_call(case)[:300], io['error'])]
+    if case['op'] != 'person':
+        return _oracle_parts(case, io, spec)
     p = io['person']
     toks = spec['tokens']
     parts = spec['comma_parts']
@@ -126,17 +188,31 @@ def oracle(case, io, reply):
         jr = ptoks[1] if len(parts) >= 3 else []
         if p['prelast'] + p['last'] != ptoks[0] or p['lineage'] != jr or p['first'] + p['middle'] != tail:
             fails.append('tokens_preserved: Person(%r) -> %r, tokens per part %r' % (s, p, ptoks))
+    if spec.get('closed'):
+        # the same clause against the tokeniser stated from the property text (tokens = the pieces between brace-level-0 white
+        # space / ties / control spaces, comma parts = the pieces between brace-level-0 commas); all groups of the name are closed
+        rparts = spec['rule_comma_parts']
+        rptoks = spec['rule_part_tokens']
+        if len(rparts) <= 1:
+            if p['first'] + p['middle'] + p['prelast'] + p['last'] != spec['rule_tokens'] or p['lineage']:
+                fails.append('tokenised: Person(%r) -> %r, the brace-level-0 tokens are %r' % (s, p, spec['rule_tokens']))
+        else:
+            jr = rptoks[1] if len(rparts) >= 3 else []
+            if p['prelast'] + p['last'] != rptoks[0] or p['lineage'] != jr or p['first'] + p['middle'] != rptoks[-1]:
+                fails.append('tokenised: Person(%r) -> %r, the brace-level-0 tokens per comma part are %r' % (s, p, rptoks))
+        if io['too_many_commas'] != (len(rparts) > 3):
+            fails.append('total: Person(%r) reported too many commas = %r with %d brace-level-0 comma parts' % (s, io['too_many_commas'], len(rparts)))
     if io['too_many_commas'] != (len(parts) > 3):
         fails.append('total: Person(%r) reported too many commas = %r with %d comma-separated parts' % (s, io['too_many_commas'], len(parts)))
     if _balanced(s):
-        for part in ('first', 'middle', 'prelast', 'last', 'lineage'):
+        for part in PARTS:
             for t in p[part]:
                 if not _balanced(t) or t not in s:
                     fails.append('braces_atomic: Person(%r).%s contains %r' % (s, part, t))
     if p['bibtex_first'] != p['first'] + p['middle']:
         fails.append('tokens_preserved: bibtex_first_names of Person(%r)' % s)
     want = spec['person']
-    got = {k: p[k] for k in ('first', 'middle', 'prelast', 'last', 'lineage')}
+    got = {k: p[k] for k in PARTS}
     if got != {k: want[k] for k in got}:
         fails.append('matches_bibtex: Person(%r) = %r, BibTeX rule gives %r' % (s, got, {k: want[k] for k in got}))
     return fails
@@ -146,25 +222,48 @@ def buckets(case, io):
     if 'error' in io:
         return ['error:' + io['error']]
     p = io['person']
-    b = ['commas=%d' % min(case['s'].count(','), 4)]
+    s = case['s']
+    b = ['commas=%d' % min(s.count(','), 4)]
+    if case['op'] != 'person':
+        b.append('explicit-parts')
     if p['prelast']:
         b.append('has-von')
     if p['lineage']:
         b.append('has-jr')
     if io['too_many_commas']:
         b.append('too-many-commas')
-    if any(ord(c) > 127 for c in case['s']):
+    if any(ord(c) > 127 for c in s):
         b.append('non-ascii')
+    if any(c.isspace() and c != ' ' for c in s):
+        b.append('ws-not-blank')
+    if '{' * 90 in s:
+        b.append('deep-nesting')
+    if '{\\' in s:
+        b.append('special-char')
     return b
 
 
 def nontrivial(case, io):
-    return ',' in case['s'] or len(case['s'].split()) > 1
+    return ',' in case['s'] or len(case['s'].split()) > 1 or case['op'] != 'person'
+
+
+def _wrap_like_bib(name, rng=None):
+    """the name as it stands in a .bib file whose author list was wrapped: blanks become line break + indentation / tabs"""
+    out = []
+    i = 0
+    for c in name:
+        if c == ' ':
+            out.append(['\n', '\n  ', '\t', '\r\n\t', '\n               '][i % 5])
+            i += 1
+        else:
+            out.append(c)
+    return ''.join(out)
 
 
 def corpus():
     out = list(corpus_for(ID))
     out.extend({'op': 'person', 's': n} for n in UNICODE_NAMES)
+    out.extend({'op': 'person', 's': n} for n in KNOWN_NAMES)
     try:
         import importlib.util
         import os
@@ -173,6 +272,10 @@ def corpus():
         spec.loader.exec_module(m)
         for row in m.sample_names:
             out.append({'op': 'person', 's': row[0]})
+        for row in m.sample_names:
+            w = _wrap_like_bib(row[0])
+            if w != row[0]:
+                out.append({'op': 'person', 's': w})
     except Exception:
         pass
     return out
@@ -184,7 +287,7 @@ def _shapes(tier):
     over the reduced class set CLASSES4 with blanks."""
     maxtok = 3 if tier == 'quick' else 4
     for n in range(1, maxtok + 1):
-        for classes in itertools.product(CLASSES, repeat=n):
+        for classes in itertools.product(CLASSES if n <= 3 else CLASSES_LONG, repeat=n):
             yield [TOKENS[c] for c in classes], (SEPS if n <= 2 or tier == 'thorough' else SEPS[:2])
     allc = CLASSES + UCLASSES
     for n in range(1, 4):
@@ -220,6 +323,82 @@ def _okcp(cp):
     return 0 < cp < 0x110000 and not (0xD800 <= cp <= 0xDFFF)
 
 
+def _join(toks, commas, seps):
+    """tokens joined by seps[i] after token i; a comma directly after the tokens whose index is in commas (a control space
+    directly after a comma would make the backslash part of the next token: a blank is used there)"""
+    s = ''
+    for i, t in enumerate(toks):
+        s += t
+        if i in commas:
+            s += ','
+        if i < len(toks) - 1:
+            s += seps[i] if not (i in commas and seps[i].startswith('\\ ')) else ' ' + seps[i][2:]
+    return s
+
+
+def _ws_cases(tier):
+    """white space other than the blank (tab, LF, CR LF, NBSP, U+001F, U+2028, ...), an independent separator per gap"""
+    out = []
+    # two tokens: every separator of the long list, every comma placement (also a comma directly followed by the next token)
+    for classes in itertools.product(WS_CLASSES, repeat=2):
+        toks = [TOKENS[c] for c in classes]
+        for sep in WS_MORE + ['']:
+            for commas in ((), (0,), (1,), (0, 1)):
+                if sep == '' and 0 not in commas:
+                    continue
+                out.append(_join(toks, commas, [sep]))
+    # three tokens: an independent separator per gap
+    classes3 = WS_CLASSES[:4] if tier == 'quick' else WS_CLASSES[:5]
+    seps3 = WS_MAIN + [' '] if tier == 'quick' else WS_MORE
+    for classes in itertools.product(classes3, repeat=3):
+        toks = [TOKENS[c] for c in classes]
+        for s1 in seps3:
+            for s2 in seps3:
+                for commas in ((), (0,), (1,), (0, 1)):
+                    out.append(_join(toks, commas, [s1, s2]))
+    # every white-space code point of the interpreter (and look-alikes that are not white space): between tokens, around the
+    # name (strip), next to commas, inside a group, inside a special character, after a backslash, next to a tie
+    frames = ['A%svon%sB', '%sA von B%s', 'von B,%sA', 'von B%s, Jr%s,%sA', '{A%sB} C', "{\\'a%sb} C", 'A\\%sB', 'A~%sb~%sC', 'a%s']
+    for w in PY_WS + NOT_WS + ['\r\n']:
+        for f in frames:
+            out.append(f.replace('%s', w))
+    return out
+
+
+def _deep_cases():
+    """brace groups nested 99..102 deep (the scanner of is_von_name follows 100 levels) at every token position"""
+    out = []
+    frames = ['%s B', 'A %s B', 'A B %s', '%s B, A', 'von %s B, Jr, A', 'A von %s', '%s', '%s %s B']
+    for k in (99, 100, 101, 102):
+        for pre in ('', 'a', 'B', '1', '\u6bdb', '\u24d0', '-'):
+            for inner in ('', 'x', 'X'):
+                for post in ('', 'a', 'B'):
+                    tok = pre + '{' * k + inner + '}' * k + post
+                    for f in frames:
+                        out.append(f.replace('%s', tok))
+        # deep nesting inside a special character (its level counts from 1), closed and unclosed
+        for inner in ('a', 'A', ''):
+            tok = '{\\x' + '{' * (k - 1) + inner + '}' * (k - 1) + '}'
+            out.extend([tok + ' B', 'A ' + tok + ' B', 'A ' + tok[:-1] + ' B', 'A 1' + tok + 'b B'])
+        out.append('A ' + '{' * k + ' B')          # unclosed
+        out.append('A ' + '}' * k + '{' * k + 'a B')
+    return out
+
+
+def _builtin_cases():
+    """special characters whose control sequence is / is not one of BibTeX's thirteen built-in foreign characters"""
+    out = []
+    forms = ['{\\%s}', '{\\%s}x', '{\\%s}X', '{\\%s x}', '{\\%s X}', '{\\%s{}}x', '{\\%s{X}}', '{\\%s1x}', '{\\%s\u00c9}', 'x{\\%s}', 'X{\\%s}',
+             '1{\\%s}X', '-{\\%s}', '{{\\%s}}x', '{\\%s', '{\\%s x', '\\%s', '\\%s{}x', "{\\'\\%s}", '{\\%s\\%s}', '{\\ %s}', '{\\%s}{\\O}', '{\\%s}{\\o}']
+    frames = ['A %s B', '%s B', 'von %s B, A', '%s']
+    for cs in BUILTIN_CS + NEAR_CS:
+        for f in forms:
+            tok = f.replace('%s', cs)
+            for fr in frames:
+                out.append(fr.replace('%s', tok))
+    return out
+
+
 def gen_cases(tier, rng, info):
     cases = []
     maxtok = 3 if tier == 'quick' else 4
@@ -232,39 +411,50 @@ def gen_cases(tier, rng, info):
         for k in range(0, min(3, n) + 1):
             for commas in itertools.combinations(positions, k):
                 for sep in seps:
-                    s = ''
-                    for i, t in enumerate(toks):
-                        s += t
-                        if i in commas:
-                            s += ','
-                        if i < n - 1:
-                            s += sep if not (i in commas and sep == '\\ ') else ' '
-                    cases.append({'op': 'person', 's': s})
+                    cases.append({'op': 'person', 's': _join(toks, commas, [sep] * n)})
     maxlen = 4 if tier == 'quick' else 5
     nstr = 0
-    for n in range(0, maxlen + 1):
-        for tup in itertools.product(ALPHA, repeat=n):
-            cases.append({'op': 'person', 's': ''.join(tup)})
-            nstr += 1
+    for alpha in (ALPHA, ALPHA_WS):
+        for n in range(0, maxlen + 1):
+            for tup in itertools.product(alpha, repeat=n):
+                if alpha is ALPHA_WS and not any(c in '\n\t\u00a0\x1f' for c in tup):
+                    continue        # already in the first alphabet's scope
+                cases.append({'op': 'person', 's': ''.join(tup)})
+                nstr += 1
+    ws = _ws_cases(tier)
+    deep = _deep_cases()
+    builtin = _builtin_cases()
+    cases.extend({'op': 'person', 's': s} for s in ws + deep + builtin)
     info['exhaustive'] = True
     info['scope'] = ('%d token shapes (<=%d tokens over the %d ASCII token classes; <=3 tokens over all %d classes incl. %d non-ASCII ones%s) '
-                     'x comma placements x separators; all %d strings of length <=%d over %r' % (
+                     'x comma placements x separators; %d strings: all of length <=%d over %r and over %r; %d white-space names (1..3 tokens, '
+                     'independent separator per gap from %r, all %d Python white-space code points); %d names with groups nested 99..102 deep '
+                     'at every token position; %d names around the %d built-in control sequences and %d near misses' % (
                          nshape, maxtok, len(CLASSES), len(ALLTOKENS), len(UCLASSES),
-                         '' if tier == 'quick' else '; 4 tokens over %d classes' % len(CLASSES4), nstr, maxlen, ALPHA))
-    apool = list(TOKENS.values()) + ['de', 'la', 'Jr.', 'III', '{\\relax van}', 'd\'Aviano', '{', '}', '\\', '~', ',', ' ', '  ', 'and', '{{\\LaTeX}}', '\\~{n}', 'A.', 'x']
+                         '' if tier == 'quick' else '; 4 tokens over %d classes' % len(CLASSES4), nstr, maxlen, ALPHA, ALPHA_WS,
+                         len(ws), WS_MORE, len(PY_WS), len(deep), len(builtin), len(BUILTIN_CS), len(NEAR_CS)))
+    apool = list(TOKENS.values()) + ['de', 'la', 'Jr.', 'III', '{\\relax van}', 'd\'Aviano', '{', '}', '\\', '~', ',', ' ', '  ', 'and', '{{\\LaTeX}}', '\\~{n}', 'A.', 'x',
+                                     '{\\ss}', '{\\AE}x', '{\\i}', '{\\L}', '\n', '\t']
     pool = apool + list(UTOKENS.values()) + UPOOL
+    rseps = ['', ' ', ' ', ' ', '~', ', ', ',', '\n', '\t', '\r\n', '\u00a0', ',\n  ', '\n    ', '\x1f', '\u2028', ' ,', '\\ ']
+
+    def deep_token():
+        k = rng.choice([99, 100, 101, 102])
+        return rng.choice(['', '', 'a', 'B', '1', '\u6bdb', '{\\o}']) + '{' * k + rng.choice(['', 'x', 'X', '\\x', ' ']) + '}' * rng.choice([k, k, k, 100]) + rng.choice(['', 'a', 'B'])
+
     for i in range(3000 if tier == 'quick' else 60000):
         n = rng.randint(1, 9)
         pl = apool if i % 2 else pool
-        s = ''.join(rng.choice(pl) + rng.choice(['', ' ', ' ', ' ', '~', ', ', ',']) for _ in range(n))
-        if rng.random() < 0.02:
-            s += '{' * rng.choice([99, 100, 101, 102]) + 'x' + '}' * 100
+        toks = [rng.choice(pl) for _ in range(n)]
+        if rng.random() < 0.04:
+            toks[rng.randrange(n)] = deep_token()       # at ANY position, not only at the end of the name
+        s = ''.join(t + rng.choice(rseps) for t in toks)
         cases.append({'op': 'person', 's': s})
     # the character tables themselves: a token starting with a code point at / next to a boundary of the interpreter's
     # isalpha / isupper / islower ranges, or with a random code point, in a position where its case matters
     ranges = _class_ranges()
     tails = ['', 'x', 'X', '1', '{x}']
-    frames = ['%s Last', 'First %s Last', '%s Last, First', 'von %s Last, Jr, First', '1%s Last', "{\\'%s}x Last", '%s']
+    frames = ['%s Last', 'First %s Last', '%s Last, First', 'von %s Last, Jr, First', '1%s Last', "{\\'%s}x Last", '%s', 'First\n%s\tLast', '{\\o%s} Last']
     for _ in range(1500 if tier == 'quick' else 40000):
         if rng.random() < 0.7:
             a, b = rng.choice(ranges)
@@ -274,22 +464,42 @@ def gen_cases(tier, rng, info):
         if not _okcp(cp):
             continue
         cases.append({'op': 'person', 's': rng.choice(frames) % (chr(cp) + rng.choice(tails))})
-    for _ in range(300 if tier == 'quick' else 5000):
-        cases.append({'op': 'personparts', 's': rng.choice(['', 'von Last, First', 'A B', '\u6bdb \u6cfd\u4e1c', '\u02bbAkahi \u00e9 Kealoha, Leilani']),
-                      'first': rng.choice(pool) + ' ' + rng.choice(pool), 'middle': rng.choice(pool),
-                      'prelast': rng.choice(['', 'von', 'de la']), 'last': rng.choice(pool), 'lineage': rng.choice(['', 'Jr', 'III~x'])})
+    # explicit part arguments: the same token material (white space of every kind, unclosed groups, deep groups, built-ins)
+    strings = ['', '', 'von Last, First', 'A B', '\u6bdb \u6cfd\u4e1c', '\u02bbAkahi \u00e9 Kealoha, Leilani', 'a, b, c, d', ' \n', 'Jens {\\o}stergaard\nHansen',
+               '{' * 101 + '}' * 101 + ' B']
+
+    def part():
+        r = rng.random()
+        if r < 0.15:
+            return ''
+        if r < 0.2:
+            return deep_token()
+        return ''.join(rng.choice(pool) + rng.choice(rseps) for _ in range(rng.randint(1, 3)))
+
+    for _ in range(1500 if tier == 'quick' else 20000):
+        case = {'op': 'personparts', 's': rng.choice(strings)}
+        for k in PARTS:
+            case[k] = part()
+        cases.append(case)
+    for w in PY_WS + NOT_WS:
+        cases.append({'op': 'personparts', 's': '', 'first': 'A%sB' % w, 'middle': '%sC%s' % (w, w), 'prelast': 'von~%sder' % w, 'last': '{L%sM}%sN' % (w, w),
+                      'lineage': w})
     return cases
 
 
-LEVEL_TEXT = ('Machine-checked proofs (Lean 4) about the function-by-function model of Person.__init__ / Person._parse_string: for EVERY '
-              'string (unbounded length) the model equals the declarative BibTeX rule Spec.split whenever the case-deciding tokens scan within '
-              'the 100-level nesting limit (C04_matches_spec); it never raises IndexError/ValueError, its only error is the nesting error, '
-              'and the too-many-commas report is exact (C04_total, C04_total_person); tokens are preserved in order in all comma forms '
+LEVEL_TEXT = ('Machine-checked proofs (Lean 4) about the function-by-function model of Person.__init__ / Person._parse_string (after the '
+              'proposed repairs C04-1 and C04-2): for EVERY non-empty string (unbounded length, any nesting) the model equals the declarative '
+              'BibTeX rule Spec.split (C04_matches_spec, no hypothesis); parsing succeeds for every string and for any six constructor '
+              'arguments, and the too-many-commas report is exact (C04_total, C04_total_person); tokens are preserved in order in all comma forms '
               '(C04_tokens_preserved); the von/Last boundary and the case rule are characterised on the model output (C04_von_longest, '
-              'C04_case_rule, C04_case_of_token); explicit parts use the same tokeniser (C04_parts_same_tokenisation); brace atomicity is '
-              'reduced to the tokeniser (C04_braces_atomic, proved for the tokeniser under C12). The model is tied to the code by the '
-              'differential check (exhaustive token-shape scope incl. non-ASCII token classes + random + the parse_name_test table) and the '
-              'oracle evaluating the spec. Letters and case are the interpreter\'s Unicode classes (str.isalpha / isupper / islower on one '
+              'C04_case_rule, C04_case_of_token), including over-nested tokens (C04_overnested_case) and BibTeX\'s thirteen built-in foreign '
+              'characters (C04_builtin_special_chars); explicit parts use the same tokeniser (C04_parts_same_tokenisation); every token of a '
+              'brace-balanced name is brace-balanced, i.e. braced groups are never split (C04_groups_never_split, from C04_braces_atomic and '
+              'C12_split_braces). The model is tied to the code by the '
+              'differential check (exhaustive token-shape scope incl. non-ASCII token classes, white space of every kind with mixed separators, '
+              'deep nesting at every position, the built-in control sequences + random + the parse_name_test table, also re-wrapped) and the '
+              'oracle evaluating the spec; the tokens are also compared with a one-pass tokeniser stated from the property text. Letters and '
+              'case are the interpreter\'s Unicode classes (str.isalpha / isupper / islower on one '
               'character), in the model and in the rule alike (C04_char_classes).')
 LEVEL_NOTE = ('Trusted: Lean kernel; axioms propext/Classical.choice/Quot.sound only; the hand-written model (Model/Names.lean, '
               'Model/TeXString.lean) corresponds to pybtex only as far as the differential check explores; the character classes are the '
@@ -297,7 +507,9 @@ LEVEL_NOTE = ('Trusted: Lean kernel; axioms propext/Classical.choice/Quot.sound 
               'coincidence and "structural characters are in no class" are re-checked by the kernel on every regeneration); BibTeX itself '
               'knows ASCII letters only, so beyond ASCII the rule is BibTeX\'s rule read with Python\'s classes (a cased first character '
               'decides; else the first brace-level-0 letter or special character; a letter without case makes the token caseless); '
-              'fidelity of Spec/Names.lean to BibTeX itself is by reading (no binary to compare with). parseName is _parse_string on the '
-              'stripped non-empty argument (find_pos after repair #3). Beyond the nesting limit model and rule differ for a token that starts '
-              'with a lower-case letter (C04_matches_spec_neg: the code answers from the first character, the rule assigns no case); '
+              'fidelity of Spec/Names.lean to BibTeX itself is by reading (bibtex.web sections 397-401 von_token_found, incl. the table of built-in '
+              'control sequences; no binary to compare with). parseName is _parse_string on the '
+              'stripped non-empty argument (find_pos after repair #3). A token nested deeper than 100 levels that does not start with a cased '
+              'character is caseless in the rule (pybtex\'s scanner limit; BibTeX has none). Spec.nameTokens / nameCommaParts (the tokeniser '
+              'stated from the property text) are compared with the code on every case with closed groups but not proved equal to splitTex; '
               'concrete witnesses are checked by kernel evaluation (decide +kernel).')
